@@ -224,6 +224,18 @@ def handleC07 (toks : List String) : String :=
         let bb := bboxOf h
         "ok " ++ showRats [bb.xlo, bb.xhi, bb.ylo, bb.yhi, bb.zlo, bb.zhi] ++ " " ++ hiloS (hiLoOfBBox bb xy xz yz)
       | _ => err "format"
+  | "route" :: rest =>
+    -- route <data|dump|table|poscar> <none|path|stream> <second value asked for 0/1>
+    run (do let kind ← tok; let tg ← tok; let w ← pBool; pure (kind, tg, w)) rest fun (kind, tg, w) =>
+      let t? : Option Target := match tg with
+        | "none" => some .none | "path" => some (.path "f") | "stream" => some .stream | _ => none
+      match t? with
+      | none => err "format"
+      | some t =>
+        if !(["data", "dump", "table", "poscar"].contains kind) then err "format" else
+        let d := deliver t (if kind = "poscar" then false else w)
+        "ok " ++ showBool d.returnsContent ++ " " ++ showBool d.returnsExtra ++ " " ++ showBool d.writes ++ " " ++
+          toString d.count ++ " " ++ showBool t.fname.isSome
   | "lex" :: rest =>
     run pHex rest fun t => "ok " ++ "|".intercalate ((lexDoc t).map joinToks)
   | _ => err "op"
